@@ -86,7 +86,15 @@ func concMain(args []string) {
 			for time.Now().Before(stop) {
 				i := lr.Intn(len(progs))
 				var e *jsonata.Expr
-				switch lr.Intn(4) {
+				mode := lr.Intn(4)
+				if time.Until(stop) > *dur/2 {
+					// first half: all goroutines evaluate the same shared expression at the same time, one
+					// program after the other (whatever an evaluation does to a compiled expression while it
+					// runs is then seen by the others)
+					i = int(time.Since(stop.Add(-*dur))/(15*time.Millisecond)) % len(progs)
+					mode = 3
+				}
+				switch mode {
 				case 0: // private expression, compiled concurrently with everything else
 					if own[i] == nil {
 						own[i], _ = jsonata.Compile(progs[i])
